@@ -43,7 +43,7 @@ SPEC = {
                 real=REAL_PIPE, stub=STUB_PIPE,
                 assumptions=["twins share seeds, entropy stream and schedule; they differ only in masked bytes of the screen file",
                              "<= 40 rows, <= 2 chains x <= 3 samples, D <= 2"]),
-    "C18": dict(engine="twinsim", level="exploration", runs=dict(quick=240, thorough=8000), chunk=2, run_timeout=600,
+    "C18": dict(engine="twinsim", level="exploration", runs=dict(quick=240, thorough=3000), chunk=2, run_timeout=600,
                 rule="per run 5 randomised operations (function level: generators, smoothers, cover, splits, RandomScorer, DBAL triple "
                      "sub-sampling, score_chunk, policy filter, select_next_plate, sampling.sample on both real models; process level: "
                      "prepare / train / scores / select / evaluate CLIs with --seed), each executed as a twin pair that differs only in "
